@@ -359,6 +359,7 @@ func init() {
 	reg("time.AfterFunc", func(fr *frame, a []value) value {
 		i := fr.i
 		t := i.sched.newTimer(false, i.namedType("time", "Time"))
+		i.sched.arm(t, a[0])
 		f := a[1]
 		t.fn = func() {
 			i.sched.spawn("AfterFunc", func() { call(i, nil, token.NoPos, f, nil) })
